@@ -13,25 +13,40 @@
    multi_source, all_pairs (all_pairs_iter / all_pairs_par_iter), get_all_shortest_paths_involving,
    betweenness_centrality and closeness_centrality on top of the per-source functions of the
    algorithm models (Model/Dijkstra.v, Model/Brandes.v, Model/Closeness.v), with the arm and the
-   schedule as an argument.  For every graph state, every argument tuple and EVERY schedule
-   (permutation of the work items) the parallel arm returns exactly the outcome of the serial
-   arm — Ok values, Err kinds and panics alike — and both equal the algorithm model that the
-   correspondence checks of C04 / C05 / C06 tie to the code (`*_sched_unobservable`: for every
-   thread count, through the `number_of_nodes() > 20 && current_num_threads() > 1` switch).
+   schedule as an argument.  For every argument tuple and EVERY schedule (permutation of the work
+   items) the parallel arm returns exactly the outcome of the serial arm — Ok values, Err kinds and
+   panics alike — and both equal the algorithm model that the correspondence checks of C04 / C05 /
+   C06 tie to the code (`*_sched_unobservable`: for every thread count, through the
+   `number_of_nodes() > 20 && current_num_threads() > 1` switch): for betweenness / closeness on every
+   graph state; for the three dijkstra.rs functions on every graph state as far as success and the Ok
+   value are concerned (`*_ok_any_state`) and in full on every state with a coherent adjacency
+   ([wf_adj]; multi_source: and coherent name indexes [names_wf]) — in particular on every WF state,
+   i.e. every state a mutation history can reach — for ANY weights, names, options (see below why
+   coherence is needed there since the repair of F22).
    The proofs never unfold the per-source functions nor the combine functions
    (accumulate_betweenness, HashMap insert), so the same fold order — hence the same value —
    holds in any number structure (C07_loop_shape_any_combine is the statement with the
    combine universally quantified).
-   Failing work items (`.unwrap()` inside the closures): rayon::join re-raises the panic of its
-   FIRST closure when both panic, an indexed split is join(lower half, upper half), a leaf runs
-   its items in index order — so the region fails with the failure of the lowest failing index,
-   like the serial loop (C07_region_plan_semantics: every fork-join plan).  The `_pessimistic`
-   theorems do not rely on that rule ("the failing item executed first wins"): the arms then
-   still agree whenever the failing items fail alike — proved for all_pairs / involving on every
-   well-formed adjacency (the only item failure is the unwrap at dijkstra.rs:172), for
-   betweenness always, for multi_source / closeness under the stated hypothesis (which holds
-   when the per-source calls succeed: C07_multi_source_items_ok via C04).
-
+   Failing work items.  (a) PANICS (`.unwrap()` / Vec indexing inside the closures; betweenness,
+   closeness): rayon::join re-raises the panic of its FIRST closure when both panic, an indexed split
+   is join(lower half, upper half), a leaf runs its items in index order — so the region fails with
+   the failure of the lowest failing index, like the serial loop (C07_region_plan_semantics: every
+   fork-join plan).  (b) RETURNED ERRORS (all_pairs, multi_source since the repair of F22: the closure
+   returns the per-source `Result`, the region is `collect::<Result<Vec<_>, Error>>()`): rayon keeps the
+   error of the erring item that ran FIRST and starts no further item ("If there are multiple errors,
+   the one returned is not deterministic"), the serial collect returns the error of the LOWEST index.
+   [gather_result_par] is that region; C07_result_region: success and the Ok value never depend on
+   the schedule, a failure is that of SOME failing item, and the region equals the serial one as soon
+   as the failing items fail alike (Example result_region_keeps_some_error: otherwise it need not).
+   They do fail alike on every coherent state: the per-source search neither panics nor runs out of
+   fuel (DijkstraTotalOk), the only `Err` it can return is ContradictoryPaths (DijkstraErrKind —
+   every graph state), and multi_source has checked the source / target names up front
+   (C07_multi_source_items_fail_alike, C07_all_pairs_items_fail_alike).  On an INCOHERENT state an item
+   could panic (index out of range) while another returns Err; then the real arms could differ too,
+   which is why the full equalities are no longer stated for every graph state.
+   The `_pessimistic` theorems use "the failing item executed first wins" for every kind of failure
+   (no reliance on join's rule): same conclusions under the same hypotheses; betweenness always,
+   closeness under the stated hypothesis.
    What is NOT proved: rayon's implementation of the indexed collect and of join, real work
    stealing and memory ordering, and that the Rust closures are the pure functions of
    (&Graph, item) the models say — supported by "Graph has no interior mutability, the crate
@@ -41,7 +56,7 @@ From Coq Require Import String List Bool ZArith QArith Sorting.Permutation.
 From GV Require Import Base.Outcome Base.AMap Model.GState Model.Creation Model.Query Model.Par.
 From GV Require Import Model.Dijkstra Model.Cent Model.Brandes Model.Closeness Model.ParFns.
 From GV Require Import Spec.ParSiteDef Spec.ShortestPathDef Spec.ShortestPathCheck Gen.ParSites.
-From GV Require Import Proofs.WFDefs Proofs.DijkstraModelOk Proofs.DijkstraNamesOk.
+From GV Require Import Spec.EdgeStoreGraph Proofs.WFDefs Proofs.DijkstraModelOk Proofs.DijkstraNamesOk.
 From GV Require Import Proofs.ParOk Proofs.ParSitesOk Proofs.ParFnsOk.
 Import ListNotations.
 Open Scope string_scope.
@@ -88,8 +103,18 @@ Theorem C07_par_sites_ok :
 Proof. exact par_sites_ok. Qed.
 
 Theorem C07_par_sites_modelled :
-  forall s, In s par_sites -> exists k, site_shape s = ShapeIndexedMapCollect k.
+  forall s, In s par_sites ->
+    exists k, site_shape s = ShapeIndexedMapCollect k \/ site_shape s = ShapeIndexedMapCollectResult k.
 Proof. exact par_sites_modelled. Qed.
+
+(* which region each function uses in the CURRENT source: the centrality loops collect into a Vec,
+   all_pairs / multi_source collect `Result` items into `Result<Vec<_>, Error>` — what Model/ParFns.v
+   transcribes ([loop_arm] / [post_arm]) *)
+Theorem C07_par_site_shapes :
+  map (fun s => (ps_fn s, site_shape s)) par_sites =
+  [("betweenness_centrality", ShapeIndexedMapCollect 1); ("closeness_centrality", ShapeIndexedMapCollect 1);
+   ("all_pairs", ShapeIndexedMapCollectResult 1); ("multi_source", ShapeIndexedMapCollectResult 1)].
+Proof. exact par_site_shapes. Qed.
 
 (* ====================================================================== PART 2: per function *)
 
@@ -112,37 +137,115 @@ Theorem C07_loop_shape_any_combine : forall (X Y B : Type) (f : X -> outcome Y) 
   loop_arm (Rayon pi) f combine xs init = loop_arm Serial f combine xs init.
 Proof. exact @loop_arm_par_eq_serial. Qed.
 
+(* ---- the region that collects `Result` items into `Result<Vec<_>, Error>` (all_pairs, multi_source) ---- *)
+(* success and the value on success never depend on the schedule; a failure is that of SOME failing item;
+   and the region equals the serial collect as soon as the failing items fail alike *)
+Theorem C07_result_region :
+  forall (X Y : Type) (f : X -> outcome Y) (pi : list nat) (xs : list X),
+  Permutation pi (seq 0 (length xs)) ->
+  (forall ys, gather_seq f xs = Ok ys -> gather_result_par pi f xs = Ok ys) /\
+  (is_ok (gather_seq f xs) = false ->
+   exists x, In x xs /\ is_ok (f x) = false /\ gather_result_par pi f xs = as_failure (f x)) /\
+  (fail_alike f xs -> gather_result_par pi f xs = gather_seq f xs).
+Proof. exact @result_region. Qed.
+
 (* ---- dijkstra::multi_source ---- *)
+(* every graph state: one arm returns Ok mm iff the other does *)
+Theorem C07_multi_source_ok_any_state :
+  forall (T A : Type) (teqb : T -> T -> bool) (pi : list nat) (g : gstate T A) (weighted : bool)
+         (sources : list T) (target : option T) (cutoff : option Q) (first_only with_paths : bool) mm,
+  Permutation pi (seq 0 (length sources)) ->
+  (multi_source_arm teqb (Rayon pi) g weighted sources target cutoff first_only with_paths = Ok mm <->
+   multi_source_arm teqb Serial g weighted sources target cutoff first_only with_paths = Ok mm).
+Proof. exact @multi_source_ok_any_state. Qed.
+
+(* every graph state, under "the failing items fail alike" *)
 Theorem C07_multi_source_parallel_eq_serial :
   forall (T A : Type) (teqb : T -> T -> bool) (pi : list nat) (g : gstate T A) (weighted : bool)
          (sources : list T) (target : option T) (cutoff : option Q) (first_only with_paths : bool),
   Permutation pi (seq 0 (length sources)) ->
+  fail_alike (multi_source_item teqb g weighted target cutoff first_only with_paths) sources ->
   multi_source_arm teqb (Rayon pi) g weighted sources target cutoff first_only with_paths =
   multi_source_arm teqb Serial g weighted sources target cutoff first_only with_paths.
 Proof. exact @multi_source_parallel_eq_serial. Qed.
+
+(* which holds whenever the names are present — ANY weights, any cutoff: every item is Ok or
+   Err ContradictoryPaths *)
+Theorem C07_multi_source_items_fail_alike :
+  forall (T A : Type) (teqb : T -> T -> bool)
+         (g : gstate T A) (weighted : bool) (sources : list T) (target : option T) (cutoff : option Q)
+         (first_only with_paths : bool),
+  wf_adj g -> names_wf teqb g ->
+  (forall s, In s sources -> exists si, lookup teqb s (nodes_map g) = Some si) ->
+  (forall t, target = Some t -> exists i, lookup teqb t (nodes_map g) = Some i) ->
+  fail_alike (multi_source_item teqb g weighted target cutoff first_only with_paths) sources.
+Proof. exact @multi_source_items_fail_alike. Qed.
+
+(* hence, with the up-front checks of multi_source itself: every coherent state, ANY weights, ANY names
+   (absent ones: both arms return NodeNotFound before the region), any options *)
+Theorem C07_multi_source_parallel_eq_serial_wf :
+  forall (T A : Type) (teqb : T -> T -> bool) (pi : list nat) (g : gstate T A) (weighted : bool)
+         (sources : list T) (target : option T) (cutoff : option Q) (first_only with_paths : bool),
+  wf_adj g -> names_wf teqb g -> Permutation pi (seq 0 (length sources)) ->
+  multi_source_arm teqb (Rayon pi) g weighted sources target cutoff first_only with_paths =
+  multi_source_arm teqb Serial g weighted sources target cutoff first_only with_paths.
+Proof. exact @multi_source_parallel_eq_serial_wf. Qed.
+
+(* every state reachable by a mutation history is WF *)
+Theorem C07_multi_source_parallel_eq_serial_WF :
+  forall (T A : Type) (teqb tltb : T -> T -> bool) (pi : list nat) (g : gstate T A) (weighted : bool)
+         (sources : list T) (target : option T) (cutoff : option Q) (first_only with_paths : bool),
+  @WF T A teqb tltb g -> small_adj g -> Permutation pi (seq 0 (length sources)) ->
+  multi_source_arm teqb (Rayon pi) g weighted sources target cutoff first_only with_paths =
+  multi_source_arm teqb Serial g weighted sources target cutoff first_only with_paths.
+Proof. exact @multi_source_parallel_eq_serial_WF. Qed.
 
 (* whatever the thread count and the schedule, the thresholded function is the model of C04 *)
 Theorem C07_multi_source_sched_unobservable :
   forall (T A : Type) (teqb : T -> T -> bool) (threads : nat) (pi : list nat) (threads' : nat) (g : gstate T A)
          (weighted : bool) (sources : list T) (target : option T) (cutoff : option Q) (first_only with_paths : bool),
-  Permutation pi (seq 0 (length sources)) ->
+  wf_adj g -> names_wf teqb g -> Permutation pi (seq 0 (length sources)) ->
   multi_source_sched teqb threads pi g weighted sources target cutoff first_only with_paths =
   multi_source teqb threads' g weighted sources target cutoff first_only with_paths.
 Proof. exact @multi_source_sched_unobservable. Qed.
 
 (* ---- dijkstra::all_pairs (all_pairs_iter / all_pairs_par_iter) ---- *)
+Theorem C07_all_pairs_ok_any_state :
+  forall (T A : Type) (teqb : T -> T -> bool) (pi : list nat) (g : gstate T A) (weighted : bool)
+         (target : option T) (cutoff : option Q) (first_only with_paths : bool) mm,
+  Permutation pi (seq 0 (number_of_nodes g)) ->
+  (all_pairs_arm teqb (Rayon pi) g weighted target cutoff first_only with_paths = Ok mm <->
+   all_pairs_arm teqb Serial g weighted target cutoff first_only with_paths = Ok mm).
+Proof. exact @all_pairs_ok_any_state. Qed.
+
+(* the items fail alike on every coherent adjacency, whatever the weights: Ok or Err ContradictoryPaths *)
+Theorem C07_all_pairs_items_fail_alike :
+  forall (T A : Type) (g : gstate T A) (weighted : bool) (target : option T) (ti : option nat)
+         (cutoff : option Q) (first_only with_paths : bool),
+  wf_adj g ->
+  fail_alike (all_pairs_item g weighted target ti cutoff first_only with_paths) (seq 0 (number_of_nodes g)).
+Proof. exact @all_pairs_items_fail_alike. Qed.
+
 Theorem C07_all_pairs_parallel_eq_serial :
   forall (T A : Type) (teqb : T -> T -> bool) (pi : list nat) (g : gstate T A) (weighted : bool)
          (target : option T) (cutoff : option Q) (first_only with_paths : bool),
-  Permutation pi (seq 0 (number_of_nodes g)) ->
+  wf_adj g -> Permutation pi (seq 0 (number_of_nodes g)) ->
   all_pairs_arm teqb (Rayon pi) g weighted target cutoff first_only with_paths =
   all_pairs_arm teqb Serial g weighted target cutoff first_only with_paths.
 Proof. exact @all_pairs_parallel_eq_serial. Qed.
 
+Theorem C07_all_pairs_parallel_eq_serial_WF :
+  forall (T A : Type) (teqb tltb : T -> T -> bool) (pi : list nat) (g : gstate T A) (weighted : bool)
+         (target : option T) (cutoff : option Q) (first_only with_paths : bool),
+  @WF T A teqb tltb g -> small_adj g -> Permutation pi (seq 0 (number_of_nodes g)) ->
+  all_pairs_arm teqb (Rayon pi) g weighted target cutoff first_only with_paths =
+  all_pairs_arm teqb Serial g weighted target cutoff first_only with_paths.
+Proof. exact @all_pairs_parallel_eq_serial_WF. Qed.
+
 Theorem C07_all_pairs_sched_unobservable :
   forall (T A : Type) (teqb : T -> T -> bool) (threads : nat) (pi : list nat) (threads' : nat) (g : gstate T A)
          (weighted : bool) (target : option T) (cutoff : option Q) (first_only with_paths : bool),
-  Permutation pi (seq 0 (number_of_nodes g)) ->
+  wf_adj g -> Permutation pi (seq 0 (number_of_nodes g)) ->
   all_pairs_sched teqb threads pi g weighted target cutoff first_only with_paths =
   all_pairs teqb threads' g weighted target cutoff first_only with_paths.
 Proof. exact @all_pairs_sched_unobservable. Qed.
@@ -150,7 +253,7 @@ Proof. exact @all_pairs_sched_unobservable. Qed.
 (* ---- dijkstra::get_all_shortest_paths_involving (its rayon path is all_pairs') ---- *)
 Theorem C07_involving_parallel_eq_serial :
   forall (T A : Type) (teqb : T -> T -> bool) (pi : list nat) (g : gstate T A) (node_name : T) (weighted : bool),
-  Permutation pi (seq 0 (number_of_nodes g)) ->
+  wf_adj g -> Permutation pi (seq 0 (number_of_nodes g)) ->
   get_all_shortest_paths_involving_arm teqb (Rayon pi) g node_name weighted =
   get_all_shortest_paths_involving_arm teqb Serial g node_name weighted.
 Proof. exact @involving_parallel_eq_serial. Qed.
@@ -158,7 +261,7 @@ Proof. exact @involving_parallel_eq_serial. Qed.
 Theorem C07_involving_sched_unobservable :
   forall (T A : Type) (teqb : T -> T -> bool) (threads : nat) (pi : list nat) (threads' : nat) (g : gstate T A)
          (node_name : T) (weighted : bool),
-  Permutation pi (seq 0 (number_of_nodes g)) ->
+  wf_adj g -> Permutation pi (seq 0 (number_of_nodes g)) ->
   get_all_shortest_paths_involving_sched teqb threads pi g node_name weighted =
   get_all_shortest_paths_involving teqb threads' g node_name weighted.
 Proof. exact @involving_sched_unobservable. Qed.
@@ -253,19 +356,17 @@ Theorem C07_multi_source_pessimistic :
   multi_source_arm teqb Serial g weighted sources target cutoff first_only with_paths.
 Proof. exact @multi_source_abort_eq_serial. Qed.
 
-(* the hypothesis of the previous theorem holds (no item fails) under the hypotheses of
-   C04_model_single_source_names: coherent indexes, non-negative costs, listed nodes present *)
-Theorem C07_multi_source_items_ok :
-  forall (T A : Type) (teqb : T -> T -> bool),
-  (forall a b, teqb a b = true <-> a = b) ->
-  forall (g : gstate T A) (weighted : bool) (sources : list T) (target : option T) (cutoff : option Q)
-         (first_only with_paths : bool),
-  wf_adj g -> names_wf teqb g -> nonneg (wgraph_of weighted (successors_vec g)) ->
-  (forall s, In s sources -> exists si, lookup teqb s (nodes_map g) = Some si) ->
-  (forall t, target = Some t -> exists i, lookup teqb t (nodes_map g) = Some i) ->
-  cutoff_exceeded cutoff 0 = false ->
-  fail_alike (multi_source_item teqb g weighted target cutoff first_only with_paths) sources.
-Proof. exact @multi_source_items_ok. Qed.
+(* since the repair of F22 no hypothesis on the weights, the names or the cutoff is left (it used to be
+   "under the hypotheses of C04_model_single_source_names", C07_multi_source_items_ok: a per-source Err
+   was a panic whose site did not depend on the item, but NodeNotFound / ContradictoryPaths had to be
+   excluded to know the items do not fail at all) *)
+Theorem C07_multi_source_pessimistic_wf :
+  forall (T A : Type) (teqb : T -> T -> bool) (pi : list nat) (g : gstate T A) (weighted : bool)
+         (sources : list T) (target : option T) (cutoff : option Q) (first_only with_paths : bool),
+  wf_adj g -> names_wf teqb g -> Permutation pi (seq 0 (length sources)) ->
+  multi_source_arm teqb (RayonAbort pi) g weighted sources target cutoff first_only with_paths =
+  multi_source_arm teqb Serial g weighted sources target cutoff first_only with_paths.
+Proof. exact @multi_source_abort_eq_serial_wf. Qed.
 
 Theorem C07_closeness_pessimistic :
   forall (T A : Type) (teqb tltb : T -> T -> bool) (pi : list nat) (lw : bool) (g : gstate T A)
